@@ -425,6 +425,7 @@ SPop ==     \* context._pop() with cleanups; contrib.scenario_autoretry: a faile
 
 \* ======================================================================= Step.run (frame.el = scenario, frame.i = position)
 Wip(el) == "wip" \in Eff(el)
+IsNest(o) == o \in {"nest_pass", "nest_fail", "nest_error", "nest_pending", "nest_undef"}
 Mark(t, el, k) == [t |-> t, el |-> el, pos |-> k]
 \* a step or step hook writes marker m to stdout / stderr / logging: captured if that switch is on, else on the real stream
 \* (a log record with log capture off reaches only the user's own handlers)
@@ -443,7 +444,8 @@ StStart ==      \* find_match; undefined path; formatter.match
           /\ evlog' = Append(evlog, FmtEv("match", el, 0, "", FALSE))
           /\ stepst' = [stepst EXCEPT ![el][k] = "untested"]
           /\ stack' = SetTop([Top EXCEPT !.pc = "bhook", !.hf = FALSE]) /\ U(<<rt, ret>>)
-   /\ U(<<inputs, forced, hookFailed, shouldSkip, ctx, cap>>)
+   /\ cap' = [cap EXCEPT !.errmarks[Top.el][Top.i] = <<>>]          \* Step.reset(): error_message of an earlier run is dropped
+   /\ U(<<inputs, forced, hookFailed, shouldSkip, ctx>>)
 StBefore ==     \* start_capture; before_step hook
    /\ Top.fn = "step" /\ Top.pc = "bhook"
    /\ rt' = RtHook(FALSE)
@@ -465,6 +467,8 @@ StBody ==       \* match.run: converter error, or the body with its outcome
                          [ctx EXCEPT ![idx].cls = Append(@, [id |-> s.cl_id, raises |-> s.cl_raises])]
           /\ IF lookupFails THEN
                 /\ stepst' = [stepst EXCEPT ![el][k] = "error"] /\ U(<<rt, shouldSkip>>)
+             ELSE IF IsNest(o) THEN      \* the body calls context.execute_steps(): continues in the nested phase
+                U(<<rt, shouldSkip, stepst>>)
              ELSE
                 /\ rt' = [rt EXCEPT !.aborted = @ \/ o = "kbd"]
                 /\ shouldSkip' = IF o = "skip" THEN [shouldSkip EXCEPT ![el] = TRUE] ELSE shouldSkip
@@ -472,8 +476,50 @@ StBody ==       \* match.run: converter error, or the body with its outcome
                              THEN [stepst EXCEPT ![el] = [j \in DOMAIN stepst[el] |-> IF stepst[el][j] \in {"untested", "skipped"} THEN "skipped" ELSE stepst[el][j]]]
                              ELSE [stepst EXCEPT ![el][k] = CASE o = "pass" -> "passed" [] o = "fail" -> "failed" [] o \in {"error", "kbd"} -> "error"
                                                                 [] o = "pending" -> (IF Wip(el) THEN "pending_warn" ELSE "pending")]
-   /\ stack' = SetTop([Top EXCEPT !.pc = "ahook"])
+   /\ LET s == Steps(Top.el)[Top.i]
+          o == IF Top.att = 1 THEN s.o ELSE s.o2
+          lookupFails == s.cl_id # 0 /\ s.cl_layer # "" /\ ~HasLayer(s.cl_layer) IN
+      stack' = SetTop([Top EXCEPT !.pc = IF IsNest(o) /\ ~lookupFails THEN "nfind" ELSE "ahook"])
    /\ U(<<inputs, ret, forced, hookFailed>>)
+
+\* ---- nested steps: context.execute_steps(u"Given sub ...") = Step.run(runner, quiet=True, capture=False) of the sub-step:
+\* no formatter call-outs, no start/stop of capture, but before_step / after_step hooks and the undefined-step bookkeeping;
+\* a sub-step that does not pass makes execute_steps raise AssertionError in the calling step (status failed)
+SubOutcome(o) == CASE o = "nest_pass" -> "pass" [] o = "nest_fail" -> "fail" [] o = "nest_error" -> "error"
+                   [] o = "nest_pending" -> "pending" [] OTHER -> "undef"
+NOutcome == LET s == Steps(Top.el)[Top.i] IN IF Top.att = 1 THEN s.o ELSE s.o2
+SubEv(el, pos, x) == Ev("sub", "", el, "", FALSE, pos, x, "", FALSE, 0, ~cfg.cap_out, ~cfg.cap_err)
+AfterNestedEv(el, pos) == Ev("after_nested", "", el, "", FALSE, pos, "", "", FALSE, 0, ~cfg.cap_out, ~cfg.cap_err)
+StNFind ==      \* find_match of the sub-step
+   /\ Top.fn = "step" /\ Top.pc = "nfind"
+   /\ IF SubOutcome(NOutcome) = "undef"
+      THEN /\ rt' = [rt EXCEPT !.undefN = @ + 1]
+           /\ stepst' = [stepst EXCEPT ![Top.el][Top.i] = "failed"]
+           /\ stack' = SetTop([Top EXCEPT !.pc = "ahook"])
+      ELSE /\ stack' = SetTop([Top EXCEPT !.pc = "nbhook"]) /\ U(<<rt, stepst>>)
+   /\ U(<<inputs, ret, forced, hookFailed, shouldSkip, ctx, cap, evlog>>)
+StNBefore ==    \* before_step hook of the sub-step (hook events of sub-steps carry position 0)
+   /\ Top.fn = "step" /\ Top.pc = "nbhook"
+   /\ rt' = RtHook(FALSE)
+   /\ evlog' = Append(evlog, HookEv("before_step", Top.el, "", Raises, 0, TRUE))
+   /\ stack' = SetTop([Top EXCEPT !.sr = Raises, !.pc = IF Raises THEN "nahook" ELSE "nbody"])     \* sr: sub-step hook failed
+   /\ U(<<inputs, ret, model, ctx, cap>>)
+StNBody ==
+   /\ Top.fn = "step" /\ Top.pc = "nbody"
+   /\ evlog' = Append(evlog, SubEv(Top.el, Top.i, SubOutcome(NOutcome)))
+   /\ cap' = Wr(cap, "out", Mark("N", Top.el, Top.i))
+   /\ stack' = SetTop([Top EXCEPT !.pc = "nahook"])
+   /\ U(<<inputs, ret, model, rt, ctx>>)
+StNAfter ==     \* after_step hook of the sub-step; then the calling step goes on, or execute_steps raises AssertionError
+   /\ Top.fn = "step" /\ Top.pc = "nahook"
+   /\ LET el == Top.el  k == Top.i  x == SubOutcome(NOutcome)
+          subFailed == Top.sr \/ Raises \/ x \in {"fail", "error"} \/ (x = "pending" /\ ~Wip(el)) IN
+      /\ rt' = RtHook(FALSE)
+      /\ evlog' = Append(evlog, HookEv("after_step", el, "", Raises, 0, TRUE)) \o (IF subFailed THEN <<>> ELSE <<AfterNestedEv(el, k)>>)
+      /\ cap' = IF subFailed THEN cap ELSE Wr(cap, "out", Mark("A", el, k))
+      /\ stepst' = [stepst EXCEPT ![el][k] = IF subFailed THEN "failed" ELSE "passed"]
+      /\ stack' = SetTop([Top EXCEPT !.pc = "ahook", !.sr = FALSE])
+   /\ U(<<inputs, ret, forced, hookFailed, shouldSkip, ctx>>)
 StAfter ==      \* after_step hook (unconditional); stop_capture
    /\ Top.fn = "step" /\ Top.pc = "ahook"
    /\ LET el == Top.el  k == Top.i IN
@@ -496,7 +542,7 @@ Next == \/ BeforeAll \/ FeatureLoop \/ FeatureRet \/ AfterAll
         \/ CEnter \/ CBeforeTag \/ CBeforeHook \/ CAnnounce \/ CItems \/ CItemRet \/ CFinish \/ CAfterHook \/ CAfterTag \/ CPop
         \/ OEnter \/ ORows \/ ORowRet
         \/ SEnter \/ SBeforeTag \/ SBeforeHook \/ SAnnounce \/ SSteps \/ SStepRet \/ SFinish \/ SAfterHook \/ SAfterTag \/ SPop
-        \/ StStart \/ StBefore \/ StBody \/ StAfter \/ StResult
+        \/ StStart \/ StBefore \/ StBody \/ StNFind \/ StNBefore \/ StNBody \/ StNAfter \/ StAfter \/ StResult
 Spec == Init /\ [][Next]_vars
 
 \* ---------------------------------------------------------------- structural invariants (every intermediate state)
